@@ -2,7 +2,7 @@
 #include "types.h"
 
 struct array_s {
-    unsigned short ref;
+    uint32_t ref;
 #ifdef DEBUG
     int extra_ref;
 #endif
